@@ -289,7 +289,7 @@ func (cs *ContractSet) loadFile(path, repoDir string) error {
 		case "extern":
 			// extern <key> (p1, p2) (r1, r2)
 			curLemma = nil
-			m := regexp.MustCompile(`^([^\s(]+)\s*\(([^)]*)\)\s*(?:\(([^)]*)\))?\s*$`).FindStringSubmatch(rest)
+			m := regexp.MustCompile(`^(\(\*?\w+\)\.\w+|[\w.$]+)\s*\(([^)]*)\)\s*(?:\(([^)]*)\))?\s*$`).FindStringSubmatch(rest)
 			if m == nil {
 				return fmt.Errorf("%s:%d: bad extern header %q", path, lineNo, body)
 			}
